@@ -106,5 +106,12 @@ for o in OBLIGATIONS:
     if o["dfcc"]["loopspec"] is None if o.get("mode") == "dfcc" else False:
         del o["dfcc"]["loopspec"]
 
+# C10 (results independent of the build configuration): the portable C loops that a build without assembly uses, both build
+# branches of crypto_verify_n (portable / SSE2) and the three build branches of sodium_memzero are each proved equal to the
+# SAME specification, hence to each other; the x86-64 adc/sbb fast paths are not covered.
+for o in OBLIGATIONS:
+    if o["name"] in ("c14.u.increment", "c14.u.add", "c14.u.sub") or o["name"].startswith("c14.f.verify_") or o["name"].startswith("c14.u.memzero."):
+        o["props"] = o["props"] + ["C10"]
+
 _byname = {o["name"]: o for o in OBLIGATIONS}
 OBLIGATIONS += []
